@@ -181,7 +181,10 @@ func TestVerif_C11(t *testing.T) {
 				if i >= perKind {
 					break
 				}
-				faults = append(faults, fault{"fail", k + 1}, fault{"fail-after-effect", k + 1}, fault{"cancel", k + 1}, fault{"die", k + 1})
+				faults = append(faults, fault{"fail", k + 1}, fault{"fail-after-effect", k + 1}, fault{"cancel", k + 1}, fault{"die", k + 1}, fault{"fail-abort", k + 1})
+				if kit.Thorough() {
+					faults = append(faults, fault{"fail-timeout", k + 1})
+				}
 			}
 			rs := rng.Perm(nreads)
 			for i, j := range rs {
@@ -204,6 +207,20 @@ func TestVerif_C11(t *testing.T) {
 					e2.store.Fault = kit.FailAt(base+f.k, false)
 				case "fail-after-effect":
 					e2.store.Fault = kit.FailAt(base+f.k, true)
+				case "fail-abort", "fail-timeout":
+					// the request is aborted underneath restic (stall watchdog, SDK timeout, rclone child gone): the
+					// error wraps context.Canceled / DeadlineExceeded although the command's context is alive
+					at := base + f.k
+					abortErr := context.Canceled
+					if f.kind == "fail-timeout" {
+						abortErr = context.DeadlineExceeded
+					}
+					e2.store.Fault = func(mut int, kind string, h backend.Handle) (error, bool) {
+						if mut == at {
+							return fmt.Errorf("%w: request aborted: %w", kit.ErrInjected, abortErr), false // permanent: not retried
+						}
+						return nil, false
+					}
 				case "cancel":
 					cancelAt = base + f.k
 				case "die":
